@@ -147,7 +147,7 @@ func VerifC02Semver() {
 
 type c02Py struct {
 	epoch   int
-	rel     [3]int
+	rel     [4]int
 	nrel    int
 	pre     int // 0 none, 1 a, 2 b, 3 rc
 	preN    int
@@ -288,7 +288,7 @@ func c02CmpPy(a, b *c02Py) int {
 	bpr, bprn := preKey(b)
 	cmp(aprn, bprn)
 	cmp(apr, bpr)
-	for i := 2; i >= 0; i-- {
+	for i := 3; i >= 0; i-- {
 		cmp(a.rel[i], b.rel[i])
 	}
 	cmp(a.epoch, b.epoch)
